@@ -120,7 +120,22 @@ pub fn c15_arg(s: u8, u: f64, off: i8, is32: bool) -> f64 {
     let eps = if is32 { f32::EPSILON as f64 } else { f64::EPSILON };
     let neg = s & 1 == 1;
     let tiny_lo = if is32 { -30.0 } else { -300.0 };
-    let x = match (s >> 1) % 12 {
+    let x = match (s >> 1) % 13 {
+        12 => {
+            // +-3 floats around a multiple of pi/4 (zeros and extrema of sin / cos: where a term of the closed
+            // forms is pure rounding noise in the real part but not in the derivative parts)
+            let k = 1.0 + (u * 63.0).floor().min(62.0);
+            let z0 = k * std::f64::consts::FRAC_PI_4;
+            if is32 {
+                let mut v = z0 as f32;
+                for _ in 0..off.unsigned_abs() {
+                    v = f32::from_bits(if off > 0 { v.to_bits() + 1 } else { v.to_bits() - 1 });
+                }
+                v as f64
+            } else {
+                nudge(z0, off)
+            }
+        }
         10 | 11 => {
             // +-3 floats around a zero of j0 / j1 / j2 (a cancellation 'fix' or a switch keyed to the
             // function value lives in a window of ~1e-9 around them)
@@ -403,7 +418,7 @@ impl Property for C15 {
         let mut n_pts = 0u64;
         for n in 0..3usize {
             let f = [Fun::SphJ0, Fun::SphJ1, Fun::SphJ2][n];
-            for s in 0..24u8 {
+            for s in 0..26u8 {
                 for iu in 0..400 {
                     let u = iu as f64 / 400.0;
                     for is32 in [false, true] {
@@ -442,7 +457,7 @@ impl Property for C15 {
         }
     }
     fn rule() -> String {
-        "generated: (any registered type over f32/f64, n in 0..2, x in [-50,50] from strata {0, below machine epsilon (down to 1e-300), +-3 floats around eps and around 1 (the switch), small non-zero 1e-12..1, [1,10], (10,50], +-3 floats around the 45 zeros of j0, j1, j2 below 50, both signs}, arbitrary parts, presence patterns) plus a deterministic sweep of the plain f32/f64 instances. Oracle: Taylor series re-expanded at x (|x|<1) / closed forms in power-series arithmetic (|x|>=1) composed in the reference algebra; tolerance 32 u e where e is the rounding bound of that well-conditioned evaluation (the 1/x^k amplification of the closed forms for small x is NOT granted). Also: real part of the dual result vs the plain-float implementation at the same argument, parity (j0, j2 even; j1 odd) with negated parts. Non-trivial: a part of order >= 2 non-zero (order-1 types: first-order part), |x| outside the trivially safe band [1,10], not ill-conditioned.".into()
+        "generated: (any registered type over f32/f64, n in 0..2, x in [-50,50] from strata {0, below machine epsilon (down to 1e-300), +-3 floats around eps and around 1 (the switch), small non-zero 1e-12..1, [1,10], (10,50], +-3 floats around the 45 zeros of j0, j1, j2 below 50, +-3 floats around the multiples k pi/4 (k <= 63), both signs}, arbitrary parts, presence patterns) plus a deterministic sweep of the plain f32/f64 instances. Oracle: Taylor series re-expanded at x (|x|<1) / closed forms in power-series arithmetic (|x|>=1) composed in the reference algebra; tolerance 32 u e where e is the rounding bound of that well-conditioned evaluation (the 1/x^k amplification of the closed forms for small x is NOT granted). Also: real part of the dual result vs the plain-float implementation at the same argument, parity (j0, j2 even; j1 odd) with negated parts. Non-trivial: a part of order >= 2 non-zero (order-1 types: first-order part), |x| outside the trivially safe band [1,10], not ill-conditioned.".into()
     }
     fn assumptions() -> Vec<String> {
         vec!["reference validated against mpmath (ndv selftest)".into()]
